@@ -347,7 +347,10 @@ def mmDbOfSexp : Sexp → Option MM.DB
            .list (.atom "ctors" :: cs), .list (.atom "rules" :: rs),
            .list [.atom "p1", a, b], .list [.atom "p2", c, d, e], .list [.atom "mp", f, g]] => do
       let ctors ← cs.mapM fun c => match c with
-        | .list [s, args] => do pure (⟨← nat? s, ← natList? args⟩ : MM.Ctor)
+        | .list [s, args] => do pure ({ sym := ← nat? s, args := ← natList? args } : MM.Ctor)
+        -- a declared notation: `$a #Pattern ( s args )` + `$a #Notation ( s args ) body`
+        | .list [s, args, .list [.atom "body", b]] => do
+            pure ({ sym := ← nat? s, args := ← natList? args, body := some (← mmTermOfSexp b) } : MM.Ctor)
         | _ => none
       let rules ← rs.mapM fun r => match r with
         | .list [.list hs, t] => do pure (⟨← hs.mapM mmTermOfSexp, ← mmTermOfSexp t⟩ : MM.Rule)
